@@ -185,6 +185,9 @@ impl WExec {
         ev["out"] = json!(o);
         ev["hist"] = json!(self.rig.history_sns());
         ev["done"] = json!(self.rig.wait_completed());
+        // which of the readers 1..3 the Writer holds a proxy for (C11: the matched set follows discovery, nothing else)
+        let m = self.rig.matched_readers();
+        ev["readers"] = json!((1..=3u8).filter(|r| m.contains(&reader_guid(*r))).collect::<Vec<u8>>());
         out.push(ev);
     }
 
